@@ -255,8 +255,69 @@ def rule_sentinel(ctx, rep):
     rep.floor('R-SENTINEL', n, 3)
 
 
+def rule_hardbreak(ctx, rep):
+    """Greedy line filling and hard-break handling: make_words + fragments_to_lines are interpreted over the
+    abstract fragment sequence  <word A> <word B> <hard line break> <word C> <word D>  with an unknown limit; on every path the
+    words before and after the hard break must end up on different output lines (a hard break is never
+    swallowed by the filler), and both words must be emitted."""
+    from ..interp import Interp, Obj, enumerate_paths, Raised, GenVal
+    from ..domains import AbsInt
+    from .. import templates as T
+    from .c09 import labels_in
+    model = ctx.model
+    cfg = md_config(ctx)
+    rule = 'R-HARDBREAK'
+    rep.rule(rule, 'a hard line break always separates the words around it into different output lines')
+    f2l = cfg.cls.lookup('fragments_to_lines')[1]
+    frag = model.classes.get('mistletoe.markdown_renderer.Fragment')
+    if frag is None:
+        raise AnalysisError('anchor vanished: markdown_renderer.Fragment')
+    rep.instance(rule)
+    problems = set()
+    n = 0
+    for marker in ('\\\n', '  \n'):
+        def run_(oracle, marker=marker):
+            it = Interp(model, loop_bound=3, while_bound=6)
+            it.reset_run(oracle)
+            T.install_string_hooks(it)
+            it.intrinsics['rx.split'] = lambda interp, a, k: ([a[1]] if T.is_abstract(a[1]) else a[0].compiled().split(a[1]))
+            ws = {}
+            for nm in 'ABCD':
+                ws[nm] = T.Taint(nm)
+                ws[nm].word = True        # single non-blank words
+            sp = lambda: Obj(frag, {'text': ' ', 'wordwrap': True})
+            fr = [Obj(frag, {'text': ws['A'], 'wordwrap': True}), sp(), Obj(frag, {'text': ws['B'], 'wordwrap': True}),
+                  Obj(frag, {'text': marker, 'wordwrap': False, 'hard_line_break': True}),
+                  Obj(frag, {'text': ws['C'], 'wordwrap': True}), sp(), Obj(frag, {'text': ws['D'], 'wordwrap': True})]
+            try:
+                g = it.call(it.getattr(cfg.cls, 'fragments_to_lines'), [fr], {'max_line_length': AbsInt('limit')})
+            except Raised as e:
+                return ('raise', e.exc.kind)
+            return ('ok', g.items if isinstance(g, GenVal) else g)
+        for trace, (kind, lines) in enumerate_paths(run_, 500):
+            n += 1
+            if kind != 'ok' or not isinstance(lines, list):
+                problems.add('fragments_to_lines does not yield lines for a hard break (%s)' % (lines,))
+                continue
+            seen = set()
+            for ln in lines:
+                labs = set()
+                labels_in(ln, labs)
+                if labs & {'A', 'B'} and labs & {'C', 'D'}:
+                    problems.add('the words before and after a hard line break (%r) can be put on the same output line' % marker)
+                seen |= labs
+            if not {'A', 'B', 'C', 'D'} <= seen:
+                problems.add('a word next to a hard line break is dropped from the output')
+    rep.obligation(rule, not problems, {'paths': n, 'fragments': '<A> <B> <hard break> <C> <D>'})
+    for p_ in sorted(problems):
+        rep.find(rule, f2l.short, p_[:60], 'fragments_to_lines / make_words: %s - reflowing changes where the hard break is' % p_,
+                 loc(model.unit_of(f2l), f2l.node))
+    rep.floor(rule, n, 4)
+
+
 def run(ctx):
     rep = ctx.report
+    rule_hardbreak(ctx, rep)
     rule_nowrap(ctx, rep)
     rule_budget(ctx, rep)
     rule_fill(ctx, rep)
